@@ -19,7 +19,7 @@ TRUSTED = [
     'torch.save / torch.load serialisation is not exercised (state is passed in memory, deep-copied)',
     'bit-for-bit equality relies on the same kernels seeing the same bits in both runs (same process, one thread per rank)',
 ]
-THEOREMS = ['save_is_read_only', 'save_load_restores', 'resume_equivalent_same_data', 'resume_equivalent_next_refresh', 'resume_recomputed', 'load_comm_guarded', 'load_comm_none_mem_opt', 'save_and_plain_load_are_silent', 'resume_equivalent_over_any_history']
+THEOREMS = ['save_is_read_only', 'save_load_restores', 'resume_equivalent_same_data', 'resume_equivalent_next_refresh', 'resume_recomputed', 'load_comm_guarded', 'load_comm_none_mem_opt', 'save_and_plain_load_are_silent', 'resume_equivalent_over_any_history', 'load_forgets_the_target']
 NOTES = 'Model mirrors the code after fixes D2 (placement of the recomputation at load) and D9 (state saved before the first factor update).'
 
 
@@ -44,6 +44,16 @@ def gen(rng, tier, k=0):
             cfg['compute_method'] = 'inverse'
         else:
             cfg['compute_method'] = 'eigen'; cfg['compute_eigenvalue_outer_product'] = True; cfg['colocate_factors'] = True
+    if k % 3 == 2:
+        # nested containers: the registered names are '0', ..., 'i.0', 'i.1', ... - one name is a suffix of another; every layer must
+        # get back ITS OWN factors (in half of these cases all layers have equal shapes, so a mix-up raises no error)
+        if rng.random() < 0.5:
+            cfg['model'] = [('linear', 3, 3, 1), ('tanh',), ('linear', 3, 3, 1), ('relu',), ('linear', 3, 3, 1)]; cfg['in_shape'] = [3]
+            cfg['nest_from'] = 2
+        else:
+            reg = [i for i, s_ in enumerate(cfg['model']) if s_[0] in ('linear', 'conv')]
+            if len(reg) >= 2:
+                cfg['nest_from'] = reg[-1]
     nsteps = rng.randint(2, 4 if tier == 'quick' else 6)
     base = []
     for _ in range(nsteps):
